@@ -289,16 +289,21 @@ func (c *c14Ctx) leaf() *c14Rule {
 		t := &c14Rule{Kind: "t", Sel: sel, Path: path, Fmt: r.Pick(c14Formats),
 			Cmp: r.Pick([]string{"lt", "le", "gt", "ge", "eq", "ne"}), Mode: r.Pick([]string{"n", "c", "c"})}
 		t.Interval = int64(time.Hour) * int64(r.Range(1, 20))
-		t.Shift = c14Pick64(r, []int64{0, 0, 1, -1, int64(time.Hour), -int64(time.Hour), int64(500 * time.Millisecond)})
+		t.Shift = c14Pick64(r, []int64{0, 1, -1, int64(time.Second), -int64(time.Second), int64(time.Hour), -int64(time.Hour),
+			int64(500 * time.Millisecond), int64(24 * time.Hour), -int64(24 * time.Hour), -int64(90 * time.Minute)})
 		t.CVal = c14Epoch + c14Pick64(r, []int64{0, 0, 1, -1, 123456789, int64(time.Second), -int64(time.Hour), int64(24 * time.Hour)})
 		// aim at the comparison boundary: the field's own timestamp, give or take a nanosecond
-		if n := c.root.Dig(c14Strs(path)...); n != nil && n.IsString() && r.Chance(1, 2) {
+		// (const mode here; for now mode genC14 places `now` from aimLhs)
+		if n := c.root.Dig(c14Strs(path)...); n != nil && n.IsString() {
 			format, err := xtime.ParseFormatName(t.Fmt)
 			if err != nil {
 				format = t.Fmt
 			}
 			if tm, err := xtime.ParseTime(format, n.AsString()); err == nil && tm.Year() > 1971 && tm.Year() < 2200 {
-				t.CVal = tm.UnixNano() - t.Shift + int64(r.Range(-1, 1))
+				t.aimLhs, t.hasAim = tm.UnixNano(), true
+				if r.Chance(1, 2) {
+					t.CVal = tm.UnixNano() - t.Shift + int64(r.Range(-1, 1))
+				}
 			}
 		}
 		if t.Mode == "n" {
@@ -504,6 +509,47 @@ func c14TypeLists(w *bufio.Writer) {
 		}
 		for _, l := range lists {
 			c14Emit(w, c14DoIfLine(c14Epoch, &c14Rule{Kind: "y", Sel: sh.sel, Path: path, Vals: l}, sh.ev))
+		}
+	}
+}
+
+func (r *c14Rule) nowAims(acc []*c14Rule) []*c14Rule {
+	if r.Kind == "t" && r.Mode == "n" && r.hasAim {
+		acc = append(acc, r)
+	}
+	for _, o := range r.Ops {
+		acc = o.nowAims(acc)
+	}
+	return acc
+}
+
+// c14TsBounds: ts_cmp in both modes, every cmp_op, value_shift from nanoseconds to days of both
+// signs, with the event's timestamp one nanosecond below / on / above each bound that matters:
+// the documented one (value [+ update_interval] + value_shift) and the ones a dropped value_shift
+// or a dropped update_interval would give.
+func c14TsBounds(w *bufio.Writer) {
+	const lhs = c14Epoch // the event's ts field: 2024-01-02T03:04:05Z
+	ev := jt.O(jt.F("ts", jt.S("2024-01-02T03:04:05Z")))
+	shifts := []int64{0, 1, -1, int64(time.Second), -int64(time.Second), int64(time.Hour), -int64(time.Hour),
+		int64(24 * time.Hour), -int64(24 * time.Hour), int64(72 * time.Hour)}
+	for _, cmp := range []string{"lt", "le", "gt", "ge", "eq", "ne"} {
+		for _, shift := range shifts {
+			for _, interval := range []int64{int64(time.Hour), int64(10 * time.Hour)} {
+				for _, drop := range []int64{0, shift, interval, shift + interval} { // which part a wrong rhs would lack
+					for d := int64(-1); d <= 1; d++ {
+						// now mode: now + interval + shift - drop = lhs + d
+						tn := &c14Rule{Kind: "t", Sel: "ts", Path: [][]byte{[]byte("ts")}, Fmt: "rfc3339nano", Cmp: cmp,
+							Mode: "n", Shift: shift, Interval: interval}
+						c14Emit(w, c14DoIfLine(lhs+d-interval-shift+drop, tn, ev))
+						// const mode: value + shift - drop' = lhs + d (update_interval plays no part)
+						if drop == 0 || drop == shift {
+							tc := &c14Rule{Kind: "t", Sel: "ts", Path: [][]byte{[]byte("ts")}, Fmt: "rfc3339nano", Cmp: cmp,
+								Mode: "c", Shift: shift, Interval: interval, CVal: lhs + d - shift + drop}
+							c14Emit(w, c14DoIfLine(c14Epoch, tc, ev))
+						}
+					}
+				}
+			}
 		}
 	}
 }
@@ -714,6 +760,7 @@ func genC14(w *bufio.Writer, r *hx.Rng, tier string) {
 	}
 	c14Small(w, r, tier)
 	c14TypeLists(w)
+	c14TsBounds(w)
 	c14MatchSmall(w)
 	c14Escapes(w, r, nDoIf/8)
 	for i := 0; i < nDoIf; i++ {
@@ -726,6 +773,21 @@ func genC14(w *bufio.Writer, r *hx.Rng, tier string) {
 		rule := ctx.rule(r.Range(0, 5))
 		insaneJSON.Release(root)
 		now := c14Epoch + c14Pick64(r, []int64{0, 1, -1, int64(time.Hour), -int64(time.Hour) * 3})
+		// a now-mode ts_cmp leaf that parses its field: put `now` so that the field's timestamp sits
+		// on (or one nanosecond off) the documented bound now + update_interval + value_shift, or on
+		// the bound a forgotten value_shift / update_interval would give
+		if aims := rule.nowAims(nil); len(aims) > 0 && r.Chance(3, 4) {
+			t := aims[r.Intn(len(aims))]
+			now = t.aimLhs - int64(r.Range(-1, 1))
+			switch r.Intn(4) {
+			case 0:
+				now -= t.Interval // value_shift forgotten
+			case 1:
+				now -= t.Shift // update_interval forgotten
+			default:
+				now -= t.Interval + t.Shift
+			}
+		}
 		c14Emit(w, c14DoIfLine(now, rule, ev))
 	}
 	for i := 0; i < nMatch; i++ {
